@@ -36,7 +36,7 @@ def reinit_jobs(tier):
 def waitempty_jobs(tier):
     J = []
     common = dict(harness="waitempty.c", backend="cadical", mem_gb=6, timeout=240, unwind=4, native=False,
-                  real=["src/lib/ares_timeout.c"], support=["vp_rt.c"],
+                  real=[], support=["vp_rt.c"],
                   replace=["ares_thread_mutex_lock", "ares_thread_mutex_unlock", "ares_thread_cond_wait",
                            "ares_thread_cond_timedwait", "ares_thread_cond_broadcast", "ares_threadsafety"],
                   replace_with=["waitempty_stubs.c"], cbmc=["--conversion-check"])
